@@ -207,8 +207,53 @@ def r2_answers(ctx):
                         n.targets[0], ast.Attribute)
                     and n.targets[0].attr == "vary"]
     ctx.floor("stores of the vary flag", len(vary_assigns), 1)
+    R = Resolver(sp, keep=set(answers))
+
+    def lowered(e):
+        """e is the lower-cased (and possibly stripped) text of an answer"""
+        e = R.resolve(e) if hasattr(e, "_parent") else e
+        low = False
+        while isinstance(e, ast.Call) and isinstance(
+                e.func, ast.Attribute) and e.func.attr in (
+                "strip", "lower") and not e.args:
+            low = low or e.func.attr == "lower"
+            e = e.func.value
+        return low and isinstance(e, ast.Name) and e.id in answers
+
+    def eq_const(nd):
+        """(constant, True) for `<lowered answer> == const`"""
+        if isinstance(nd, ast.Compare) and len(nd.ops) == 1 and isinstance(
+                nd.ops[0], ast.Eq):
+            for a_, b_ in ((nd.left, nd.comparators[0]),
+                           (nd.comparators[0], nd.left)):
+                if const_str(b_) is not None and lowered(a_):
+                    return const_str(b_)
+        return None
+
     for st in vary_assigns:
         v = st.value
+        if isinstance(v, ast.Compare):
+            c = eq_const(v)
+            if c is None:
+                raise Undecided(f"vary flag computed by {norm(v)}")
+            ctx.check(c == "true", st, f"vary := (answer == {c!r})",
+                      f"the stored vary flag is `answer == {c!r}` on a "
+                      f"lower-cased answer: the accepted answer 'true' is "
+                      f"not stored as True")
+            member = False
+            for a in conditions_at(st):
+                nd = a.node
+                if a.pol and isinstance(nd, ast.Compare) and isinstance(
+                        nd.ops[0], ast.In) and lowered(nd.left):
+                    lit = literal(nd.comparators[0])
+                    if isinstance(lit, (list, tuple, set)) and set(lit) == \
+                            {"true", "false"}:
+                        member = True
+            if not member:
+                raise Undecided("vary flag stored without a test that the "
+                                "answer is 'true' or 'false'")
+            ctx.ok(st, "only 'true'/'false' answers are stored")
+            continue
         if not isinstance(v, ast.Name):
             ctx.fail(st, f"vary := {norm(v)}",
                      "the stored vary flag is computed by an expression "
@@ -221,10 +266,9 @@ def r2_answers(ctx):
         seen = set()
         for c in consts:
             conds = conditions_at(c)
-            lits = [a.text.split("==")[-1].strip().strip("'\"")
-                    for a in conds if a.pol and "==" in a.text
-                    and v.id in a.text]
-            ok = lits and lits[-1].lower() == str(c.value.value).lower()
+            lits = [eq_const(a.node) for a in conds if a.pol]
+            lits = [x for x in lits if x is not None]
+            ok = lits and lits[-1] == str(c.value.value).lower()
             seen.add(c.value.value)
             ctx.check(ok, c, f"answer {lits} -> {c.value.value}",
                       f"the answer {lits} is stored as {c.value.value}")
@@ -422,12 +466,28 @@ def r5_statistics(ctx):
               f"fit_perform writes {len(writes)} statistics rows per curve "
               "instead of exactly one")
     # the columns
+    # the column table is what the row comprehension iterates
+    row0 = None
+    for s_ in lp.body:
+        if isinstance(s_, ast.Assign) and isinstance(
+                s_.value, ast.ListComp) and len(s_.value.generators) == 1 \
+                and any(w_ for w_ in writes
+                        if norm(s_.targets[0]) in norm(w_)):
+            row0 = s_
+    if row0 is None:
+        raise Undecided("fit_perform: the statistics row is not a list "
+                        "comprehension over the column table")
+    tabname = norm(row0.value.generators[0].iter)
+    rowvar = norm(row0.targets[0])
     dl = None
     for st in walk_no_nested(fp_, False):
-        if isinstance(st, ast.Assign) and norm(st.targets[0]) == "dlist":
+        if isinstance(st, ast.Assign) and norm(st.targets[0]) == tabname:
             dl = st.value
-    if not isinstance(dl, ast.List):
-        raise Undecided("dlist is not a list literal")
+    if not isinstance(dl, (ast.List, ast.Tuple)) or not all(
+            isinstance(e, (ast.List, ast.Tuple)) and len(e.elts) == 2
+            for e in dl.elts):
+        raise Undecided(f"{tabname} is not a literal table of (name, "
+                        "function) pairs")
     cols = [const_str(e.elts[0]) for e in dl.elts]
     ctx.check(cols == ["path", "enum", "E", "rating"], dl,
               f"statistics columns {cols}",
@@ -437,7 +497,21 @@ def r5_statistics(ctx):
     for e in dl.elts:
         name = const_str(e.elts[0])
         lam = e.elts[1]
+        if isinstance(lam, ast.Name) and f"fit_perform.{lam.id}" in rm.funcs:
+            # a nested def: judge its returned expression
+            ld_ = rm.funcs[f"fit_perform.{lam.id}"]
+            rets_ = [r for r in walk_no_nested(ld_, False)
+                     if isinstance(r, ast.Return)]
+            if len(rets_) != 1 or len(ld_.args.args) != 1:
+                raise Undecided(f"column function {lam.id} has several "
+                                "returns")
+            lam = ast.Lambda(args=ld_.args,
+                             body=Resolver(ld_).resolve(rets_[0].value))
         body = norm(lam.body) if isinstance(lam, ast.Lambda) else norm(lam)
+        if isinstance(lam, ast.Lambda) and lam.args.args and \
+                lam.args.args[0].arg != "x":
+            a0 = lam.args.args[0].arg
+            body = norm(_rename(lam.body, a0, "x"))
         if name in want:
             ctx.check(body == want[name], e, f"column {name} = {body}",
                       f"statistics column '{name}' is computed as {body}")
@@ -462,11 +536,11 @@ def r5_statistics(ctx):
     if w is not None:
         row = None
         for s in lp.body:
-            if isinstance(s, ast.Assign) and norm(s.targets[0]) == "stats":
+            if isinstance(s, ast.Assign) and norm(s.targets[0]) == rowvar:
                 row = s.value
         ok = False
         if isinstance(row, ast.ListComp) and len(row.generators) == 1 and \
-                norm(row.generators[0].iter) == "dlist" and \
+                norm(row.generators[0].iter) == tabname and \
                 not row.generators[0].ifs and isinstance(row.elt, ast.Call) \
                 and call_name(row.elt) == "str" and isinstance(
                     row.elt.args[0], ast.Call):
@@ -490,6 +564,15 @@ def r5_statistics(ctx):
               "the curve is not fitted before its statistics are written")
 
 
+def _rename(expr, old, new):
+    from ..astutil import clone
+    e = clone(expr)
+    for n in ast.walk(e):
+        if isinstance(n, ast.Name) and n.id == old:
+            n.id = new
+    return e
+
+
 def _parents(node, stop):
     out = []
     p = getattr(node, "_parent", None)
@@ -497,6 +580,242 @@ def _parents(node, stop):
         out.append(p)
         p = getattr(p, "_parent", None)
     return out
+
+
+# ---------------------------------------------------------------------------
+# R6: legacy loader keeps the text of every entry, except the two documented
+# words of `segment`
+
+LEGACY_WORDS = {"approach": "0", "retract": "1"}
+
+
+class _Sym:
+    """a text that is none of the constants it is compared with"""
+    def __init__(self, name):
+        self.name = name
+
+    def __repr__(self):
+        return f"<any other {self.name}>"
+
+
+def _fold(e, env):
+    """Evaluate `e` over constants and the symbolic `other` texts; raises
+    Undecided for anything else."""
+    if isinstance(e, ast.Constant):
+        return e.value
+    if isinstance(e, ast.Name):
+        if e.id in env:
+            return env[e.id]
+        raise Undecided(f"legacy loader: value of `{e.id}` unknown")
+    if isinstance(e, ast.Compare) and len(e.ops) == 1:
+        a, b = _fold(e.left, env), _fold(e.comparators[0], env)
+        op = e.ops[0]
+        if isinstance(op, (ast.Eq, ast.NotEq)):
+            if isinstance(a, _Sym) or isinstance(b, _Sym):
+                sym, other = (a, b) if isinstance(a, _Sym) else (b, a)
+                if isinstance(other, _Sym):
+                    if other is sym:
+                        r = True
+                    else:
+                        raise Undecided("legacy loader: two free texts "
+                                        "compared")
+                elif other in sym.excluded:
+                    r = False
+                else:
+                    raise Undecided(f"legacy loader: entry compared with "
+                                    f"{other!r}")
+            else:
+                r = a == b
+            return r if isinstance(op, ast.Eq) else not r
+        if isinstance(op, (ast.In, ast.NotIn)) and isinstance(
+                b, (tuple, list, dict)):
+            if isinstance(a, _Sym):
+                if all(x in a.excluded for x in b):
+                    r = False
+                else:
+                    raise Undecided("legacy loader: membership of a free "
+                                    "text")
+            else:
+                r = a in b
+            return r if isinstance(op, ast.In) else not r
+        raise Undecided(f"legacy loader: comparison {norm(e)}")
+    if isinstance(e, ast.BoolOp):
+        vals = [_fold(v, env) for v in e.values]
+        if any(isinstance(v, _Sym) for v in vals):
+            raise Undecided("legacy loader: truthiness of a free text")
+        out = vals[0]
+        for v in vals[1:]:
+            out = (out and v) if isinstance(e.op, ast.And) else (out or v)
+        return out
+    if isinstance(e, ast.UnaryOp) and isinstance(e.op, ast.Not):
+        v = _fold(e.operand, env)
+        if isinstance(v, _Sym):
+            raise Undecided("legacy loader: truthiness of a free text")
+        return not v
+    if isinstance(e, ast.IfExp):
+        t = _fold(e.test, env)
+        if isinstance(t, _Sym):
+            raise Undecided("legacy loader: truthiness of a free text")
+        return _fold(e.body if t else e.orelse, env)
+    if isinstance(e, (ast.Tuple, ast.List)):
+        return tuple(_fold(x, env) for x in e.elts)
+    if isinstance(e, ast.Dict) and all(k is not None for k in e.keys):
+        return {_fold(k, env): _fold(v, env)
+                for k, v in zip(e.keys, e.values)}
+    if isinstance(e, ast.Subscript):
+        base, key = _fold(e.value, env), _fold(e.slice, env)
+        if isinstance(base, dict) and not isinstance(key, _Sym) \
+                and key in base:
+            return base[key]
+        raise Undecided(f"legacy loader: {norm(e)}")
+    if isinstance(e, ast.Call) and not e.keywords:
+        cn = call_name(e)
+        args = [_fold(a, env) for a in e.args]
+        if cn in ("str", "int", "bool") and len(args) == 1 and not \
+                isinstance(args[0], _Sym):
+            try:
+                return {"str": str, "int": int, "bool": bool}[cn](args[0])
+            except (TypeError, ValueError):
+                raise Undecided(f"legacy loader: {norm(e)}")
+        if isinstance(e.func, ast.Attribute) and e.func.attr == "get" \
+                and len(args) in (1, 2):
+            base = _fold(e.func.value, env)
+            if isinstance(base, dict):
+                k = args[0]
+                dflt = args[1] if len(args) == 2 else None
+                if isinstance(k, _Sym):
+                    if all(x in k.excluded for x in base):
+                        return dflt
+                    raise Undecided("legacy loader: lookup of a free text")
+                return base.get(k, dflt)
+        if isinstance(e.func, ast.Attribute) and e.func.attr in (
+                "strip", "lower") and not args:
+            base = _fold(e.func.value, env)
+            if isinstance(base, _Sym) and e.func.attr == "strip":
+                return base
+            if isinstance(base, str):
+                return getattr(base, e.func.attr)()
+    raise Undecided(f"legacy loader: cannot evaluate {norm(e)}")
+
+
+def _run(stmts, env, tracked):
+    """Interpret a statement list over `env`; statements that neither read
+    through a decidable test nor write a tracked name are skipped."""
+    for st in stmts:
+        if isinstance(st, ast.Assign) and len(st.targets) == 1 and \
+                isinstance(st.targets[0], ast.Name):
+            nm = st.targets[0].id
+            try:
+                env[nm] = _fold(st.value, env)
+            except Undecided:
+                if nm in tracked:
+                    raise
+                env.pop(nm, None)
+        elif isinstance(st, ast.If):
+            writes = {t for b in (st.body, st.orelse) for x in b
+                      for n in ast.walk(x)
+                      for t in ([n.id] if isinstance(n, ast.Name) and
+                                isinstance(n.ctx, ast.Store) else [])}
+            try:
+                t = _fold(st.test, env)
+                if isinstance(t, _Sym):
+                    raise Undecided("legacy loader: truthiness of a free "
+                                    "text")
+            except Undecided:
+                if writes & set(tracked):
+                    raise
+                for w in writes:
+                    env.pop(w, None)
+                continue
+            _run(st.body if t else st.orelse, env, tracked)
+        elif isinstance(st, (ast.Expr, ast.Pass)):
+            continue
+        else:
+            for n in ast.walk(st):
+                if isinstance(n, ast.Name) and isinstance(n.ctx, ast.Store) \
+                        and n.id in tracked:
+                    raise Undecided(f"legacy loader: `{n.id}` written by "
+                                    f"{norm(st)[:60]}")
+    return env
+
+
+def r6_legacy_words(ctx):
+    m, meths = _profile_cls(ctx)
+    if "load_legacy" not in meths:
+        raise AnchorError("Profile.load_legacy not found")
+    f = meths["load_legacy"]
+    ctx.analysed(f)
+    loop = None
+    for n in walk_no_nested(f, False):
+        if isinstance(n, ast.For) and any(
+                isinstance(c.func, ast.Attribute) and c.func.attr == "split"
+                and c.args and const_str(c.args[0]) == "="
+                for c in calls_in(n)):
+            loop = n
+            break
+    if loop is None:
+        raise AnchorError("load_legacy: no loop splitting lines at '='")
+    store = None
+    for i, st in enumerate(loop.body):
+        if isinstance(st, ast.Assign) and isinstance(
+                st.targets[0], ast.Subscript) and isinstance(
+                st.value, ast.Name) and isinstance(st.targets[0].slice,
+                                                   ast.Name):
+            store = (i, st)
+    if store is None:
+        raise Undecided("load_legacy: the raw entry is not stored by a "
+                        "top-level `d[key] = text` in the line loop")
+    si, sst = store
+    K, V = sst.targets[0].slice.id, sst.value.id
+    # the interpretation starts after the last statement that takes the
+    # texts from the line (anything that cannot be folded from K and V)
+    start = 0
+    for i, st in enumerate(loop.body[:si]):
+        if isinstance(st, ast.Assign):
+            tn = {n.id for t in st.targets for n in ast.walk(t)
+                  if isinstance(n, ast.Name)}
+            if tn & {K, V}:
+                srcs = {n.id for n in ast.walk(st.value)
+                        if isinstance(n, ast.Name)}
+                plain = isinstance(st.value, ast.Call) and isinstance(
+                    st.value.func, ast.Attribute) and st.value.func.attr \
+                    == "strip" and srcs <= {K, V}
+                if not plain and not (srcs <= {K, V} and srcs):
+                    start = i + 1
+    body = loop.body[start:si]
+    excl = set(LEGACY_WORDS) | {"segment"}
+    cases = []
+    for word, want in sorted(LEGACY_WORDS.items()):
+        cases.append(("segment", word, want,
+                      f"segment = {word} -> {want!r}"))
+    other_v = _Sym("value")
+    other_v.excluded = excl
+    other_k = _Sym("key")
+    other_k.excluded = excl
+    cases.append(("segment", other_v, other_v,
+                  "segment = <number> kept as written"))
+    cases.append((other_k, other_v, other_v, "other keys kept as written"))
+    for word in sorted(LEGACY_WORDS):
+        cases.append((other_k, word, word,
+                      f"<other key> = {word} kept as written"))
+    consts = {}
+    for nm, vals in m.assigns.items():
+        if len(vals) == 1 and isinstance(vals[0], (ast.Dict, ast.Tuple,
+                                                   ast.List, ast.Constant)):
+            try:
+                consts[nm] = literal(vals[0], opaque=False)
+            except Undecided:
+                pass
+    for k, v, want, what in cases:
+        env = _run(body, dict(consts, **{K: k, V: v}), (K, V))
+        got_k, got_v = env.get(K), env.get(V)
+        ok = (got_v is want if isinstance(want, _Sym) else got_v == want) \
+            and (got_k is k if isinstance(k, _Sym) else got_k == k)
+        ctx.check(ok, sst, what,
+                  f"legacy profile entry `{k!r} = {v!r}` is stored as "
+                  f"`{got_k!r}: {got_v!r}` (expected {want!r}): the legacy "
+                  f"file and its JSON form no longer give the same "
+                  f"settings")
 
 
 RULES = [
@@ -510,4 +829,6 @@ RULES = [
      r4_persistence),
     ("C19-R5", "one statistics row per curve with the documented columns",
      r5_statistics),
+    ("C19-R6", "legacy loader maps exactly approach/retract of `segment` and "
+     "keeps every other entry as written", r6_legacy_words),
 ]
